@@ -1,5 +1,6 @@
 import PysamlModel.Model.MiniPy
 import PysamlModel.Model.Sp
+import PysamlModel.Gen.PyFuns
 
 /-!
 # How the arguments of the translated functions are written as MiniPy values
@@ -31,5 +32,71 @@ def timeExt (now : Int) (tm : String → Int) : Ext := fun f args =>
   | "time.gmtime", [_] => .ok .none
   | "time.strftime", [_, _] => .ok (.str "")
   | f, _ => .stuck ("external " ++ f)
+
+
+/-- A call of one translated function from another: the callee is RUN (its regenerated term under the interpreter),
+    not replaced by an assumption about it. -/
+def asExt (r : Result) : R Val :=
+  match r with
+  | .value v => .ok v
+  | .raised c => .raise c
+  | .stuck w => .stuck w
+
+/-- `SamlBase.keyswv()`: the names of the members that have a value. -/
+def keyswv (v : Val) : R Val :=
+  match v with
+  | .obj fs => .ok (.list ((fs.filter (fun p => truthy p.2)).map (fun p => .str p.1)))
+  | _ => .stuck "keyswv of a non-object"
+
+/-- The externals of the translated METHODS (`condition_ok`, `authn_statement_ok`, `_verify`): the module-level
+    functions they call are the translated terms themselves (`for_me`, `validate_on_or_after`, `validate_before`),
+    run under the interpreter; the clock, the reading of timestamps (`tm`), `later_than` on two present timestamps,
+    `keyswv`, and the two checks `_verify` delegates to (`issue_instant_ok`, `status_ok`, given as `iiOk`/`stOk`). -/
+def pyExt (now : Int) (tm : String → Int) (iiOk : Bool) (stOk : R Val) : Ext := fun f args =>
+  match f, args with
+  | "for_me", [c, me] => asExt (run Sp.pyStrip noExt Gen.PyFuns.for_me [c, me])
+  | "validate_on_or_after", [t, s] => asExt (run Sp.pyStrip (timeExt now tm) Gen.PyFuns.validate_on_or_after [t, s])
+  | "validate_before", [t, s] => asExt (run Sp.pyStrip (timeExt now tm) Gen.PyFuns.validate_before [t, s])
+  | "later_than", [.str a, .str b] => .ok (.bool (decide (tm a ≥ tm b)))
+  | ".keyswv", [v] => keyswv v
+  | ".issue_instant_ok", [_] => .ok (.bool iiOk)
+  | ".status_ok", [_] => stOk
+  | f, args => timeExt now tm f args
+
+/-- `pyExt` for the methods that do not delegate to `issue_instant_ok` / `status_ok`. -/
+abbrev pyExt0 (now : Int) (tm : String → Int) : Ext := pyExt now tm true (.ok (.bool true))
+
+/-- The instant a lexical timestamp attribute denotes for the model: absent and empty are "no value". -/
+def lexTime (tm : String → Int) (o : Option String) : Option Int :=
+  match o with
+  | some s => if s = "" then none else some (tm s)
+  | none => none
+
+def optStr (o : Option String) : Val := match o with | some s => .str s | none => .none
+
+/-- one `AuthnStatement` as the method sees it -/
+def encStmt (s : Option String) : Val := .obj [("session_not_on_or_after", optStr s)]
+
+/-- `self` as `authn_statement_ok` sees it -/
+def selfAuthn (stmts : List (Option String)) (skew : Nat) (sess : Int) : Val :=
+  .obj [("assertion", .obj [("authn_statement", .list (stmts.map encStmt))]), ("timeslack", .int skew),
+        ("session_not_on_or_after", .int sess)]
+
+/-- the value of `self.session_not_on_or_after` when the method ends -/
+def sessionOf (o : Option Val) : Option Val :=
+  match o with
+  | some (.obj fs) => lookup fs "session_not_on_or_after"
+  | _ => none
+
+/-- the assertion the model sees: one `AuthnStmt` per statement, with the instant its lexical value denotes -/
+def authnOf (tm : String → Int) (stmts : List (Option String × Option String)) : List Sp.AuthnStmt :=
+  stmts.map (fun s => { sessionNooa := lexTime tm s.1, sessionIndex := s.2 })
+
+def errClass : Sp.Err → String
+  | .authnStmtCount => "ValueError"
+  | .expired => "ResponseLifetimeExceed"
+  | .premature => "ToEarly"
+  | _ => "Exception"
+
 
 end PyTie
